@@ -1,3 +1,4 @@
+import Fpdec.Kernels.Misc
 import Fpdec.Kernels.Cmp
 import Fpdec.Lemmas.Cmp
 import Fpdec.Props.C08_Sites
@@ -78,5 +79,9 @@ theorem kernel_decimal_cmp_uint (prof : Profile) (d : Dec) (i : Nat) :
     Gen.K.decimal_cmp_uint prof d i = .ok (partialCmpDecInt false d i) := Kernels.decimal_cmp_uint_eq prof d i
 theorem kernel_uint_cmp_decimal (prof : Profile) (i : Nat) (d : Dec) :
     Gen.K.uint_cmp_decimal prof i d = .ok (partialCmpIntDec false i d) := Kernels.uint_cmp_decimal_eq prof i d
+
+/-- `impl Ord for Decimal`: `partial_cmp(..).unwrap()`, as translated on this run -/
+theorem kernel_decimal_cmp (prof : Profile) (x y : Dec) (hp : x.nfrac < 256) (hq : y.nfrac < 256) :
+    Gen.K.decimal_cmp prof x y = Model.cmp x y := Kernels.decimal_cmp_eq prof x y hp hq
 
 end Fpdec.Props.C08
